@@ -1,11 +1,13 @@
 #!/bin/bash
-# Applies every seeded change under /verif/seeded to /repo in turn, runs the quick check of the property it breaks,
+# Applies every seeded change under /verif/seeded to /repo in turn, runs the quick check of the property it breaks (the thorough one where seeded/<id>/TIER says so),
 # undoes it, and prints one line per change. Exit 0 iff every change is detected (check exits 1 with a VIOLATION line).
 cd /verif || exit 2
 fail=0
 for d in seeded/*/; do
   k=$(basename $d); id=${k%%-*}
-  out=$(tools/try_patch.sh /verif/${d%/}/patch.diff $id 2>&1)
+  # a change that only a deeper bound reaches carries a TIER file (e.g. "thorough")
+  tier=quick; [ -f ${d%/}/TIER ] && tier=$(cat ${d%/}/TIER)
+  out=$(TIER=$tier tools/try_patch.sh /verif/${d%/}/patch.diff $id 2>&1)
   if echo "$out" | grep -q "^== $id rc=1" && echo "$out" | grep -q "^VIOLATION property=$id"; then
     echo "DETECTED $k  $(echo "$out" | grep -m1 clause | cut -c1-120)"
   else
